@@ -428,7 +428,7 @@ fn c10_collect_contract_order0() {
 
 //@ id: c10_collect_contract_order1
 //@ prop: C10
-//@ tier: quick
+//@ tier: thorough
 //@ strength: bounded(abstract map of <= 2 children, map iterated in reverse order)
 //@ fn: vec::MetricVecCore::collect
 //@ obligation: collect emits exactly one sample per entry under exactly one read guard, whatever the map's iteration order
